@@ -244,6 +244,10 @@ pub enum Src {
   IntervalAt(i64, u64),
   Timer(i64, u64),
   TimerAt(i64, i64),
+  /// from_stream over an always-ready counting stream of `n` items
+  StreamCount(usize),
+  /// from_iter(0..n) over a pull-counting iterator
+  IterCount(usize),
 }
 
 #[derive(Clone, Debug, PartialEq, Eq, Hash)]
@@ -294,7 +298,7 @@ impl Pipe {
     match self {
       Pipe::S(s) => matches!(
         s,
-        Src::Interval(_) | Src::IntervalAt(..) | Src::Timer(..) | Src::TimerAt(..)
+        Src::Interval(_) | Src::IntervalAt(..) | Src::Timer(..) | Src::TimerAt(..) | Src::StreamCount(_)
       ),
       Pipe::O1(op, p) => op.uses_time() || p.uses_time(),
       Pipe::O2(_, a, b) => a.uses_time() || b.uses_time(),
@@ -513,6 +517,29 @@ impl Iterator for CountingIter {
       self.pulls.fetch_add(1, Ordering::SeqCst);
     }
     n
+  }
+}
+
+/// always-ready stream of 0..n that counts how often it is polled
+#[derive(Clone)]
+pub struct CountingStream {
+  i: usize,
+  n: usize,
+  pulls: Arc<AtomicUsize>,
+}
+impl futures::Stream for CountingStream {
+  type Item = V;
+  fn poll_next(
+    mut self: std::pin::Pin<&mut Self>,
+    _cx: &mut std::task::Context<'_>,
+  ) -> std::task::Poll<Option<V>> {
+    self.pulls.fetch_add(1, Ordering::SeqCst);
+    if self.i < self.n {
+      self.i += 1;
+      std::task::Poll::Ready(Some(V::I(self.i as i64 - 1)))
+    } else {
+      std::task::Poll::Ready(None)
+    }
   }
 }
 
@@ -739,6 +766,18 @@ macro_rules! build_fns {
             .map(V::from)
             .on_error_map(inf::<E>)
             .box_it()
+        }
+        Src::StreamCount(n) => {
+          let $cxs = cx;
+          let st = CountingStream { i: 0, n: *n, pulls: c.pulls.clone() };
+          observable::from_stream(st, $sched).on_error_map(inf::<E>).box_it()
+        }
+        Src::IterCount(n) => {
+          let it = CountingIter {
+            items: (0..*n as i64).map(V::I).collect::<Vec<_>>().into_iter(),
+            pulls: c.pulls.clone(),
+          };
+          observable::from_iter(it).on_error_map(inf::<E>).box_it()
         }
         Src::Timer(v, d) => $nc! {{
           let $cxs = cx;
